@@ -68,6 +68,10 @@ func (t DataType) Bytes(endian binary.ByteOrder, value interface{}, length int64
 	case TIME, TIMEN:
 		dur := asetime.DurationFromTime(value.(time.Time))
 		fract := asetime.MillisecondToFractionalSecond(dur.Microseconds())
+		if fract == 300*int(asetime.Day/asetime.Second) {
+			// rounded up to 24:00:00, which is not a time of day
+			fract--
+		}
 
 		bs := make([]byte, length)
 		endian.PutUint32(bs, uint32(fract))
